@@ -64,7 +64,7 @@ fn generate(rng: &mut Rng) -> C10Sc {
     // the first connection may present a cookie that is not accepted (expired, another secret, another address,
     // garbage): the player is authenticated afresh and must be issued a new one all the same
     if intent == 3 && rng.chance(1, 4) {
-        let id = Identity { name: "Stale".into(), uuid: gen_uuid(rng), props: vec![] };
+        let id = Identity { name: "Stale".into(), uuid: gen_uuid(rng), props: if rng.chance(1, 2) { vec![PropSpec { name: "textures".into(), value: "somebody-elses-skin".into(), signature: Some("sig".into()) }] } else { vec![] } };
         let sec = secret.clone().unwrap_or_default();
         client.auth_cookie = Some(match rng.below(4) {
             0 => signed_cookie(&sec, &cookie_json(1_700_000_000, "203.0.113.250:4000", &id, None)), // long expired, other address
@@ -82,7 +82,7 @@ fn generate(rng: &mut Rng) -> C10Sc {
     }
     let verdict = match rng.below(3) {
         0 => AuthRes::Claim,
-        _ => AuthRes::Profile { name: format!("Real{}", rng.below(1000)), uuid: format!("{:032x}", gen_uuid(rng)), props: gen_props(rng) },
+        _ => AuthRes::Profile { name: if rng.chance(1, 6) { format!("Sanct{}", rng.below(1000)) } else { format!("Real{}", rng.below(1000)) }, uuid: format!("{:032x}", gen_uuid(rng)), props: gen_props(rng) },
     };
     let ntargets = rng.range(1, 3) as usize;
     let targets: Vec<_> = (0..ntargets).map(|i| gen_target(rng, i)).collect();
